@@ -396,6 +396,28 @@ def c16_rpc_burst(rng, count):
     return out
 
 
+def c16_equal_ids(rng):
+    """two clients of one server behind the proxy whose overlapping streams carry the SAME id (every ClientConn counts
+    from 1), handlers that send their headers explicitly (a header-only envelope, the shape of an opening one), with
+    every kind of interceptor: each client gets its own stream's envelopes and nobody else's"""
+    out = []
+    k = 0
+    for icpt in (dict(kind='nil'), dict(kind='id'), dict(kind='rw', **{'from': 'svc', 'to': 's1'})):
+        for kind in ('bidi', 'ss'):
+            k += 1
+            dst = 'svc' if icpt['kind'] == 'rw' else 's1'
+            servers = [dict(name='s1', pre=True)]
+            clients = [dict(name='c1', dst=dst), dict(name='c2', dst=dst)]
+            hp = lambda who: [dict(o='sendhdr', md=[['hdr-who', who]]), dict(o='recv'), dict(o='send', pay='for ' + who),
+                              dict(o='settrl', md=[['trl-who', who]]), dict(o='drain'), dict(o='ret')]
+            steps = [dict(op='sopen', kind=kind, c=1, cli='c1', name='s1', hp=hp('c1')), dict(op='sopen', kind=kind, c=2, cli='c2', name='s1', hp=hp('c2')), Q,
+                     dict(op='send', c=2, pay='q2'), dict(op='send', c=1, pay='q1'), Q,
+                     dict(op='close', c=1), dict(op='close', c=2), dict(op='recv', c=1, n=2), dict(op='recv', c=2, n=2), Q]
+            out.append(scen('C16', 'rpc two clients, equal stream ids, explicit headers, %s icpt=%s #%d' % (kind, icpt['kind'], k), steps, mode='rpc', icpt=icpt,
+                            clients=clients, servers=servers))
+    return out
+
+
 def c16_reattach(rng, count):
     """right peer across a re-attachment: envelopes for X, X attaches again under its name while the old
     connection is still open and healthy, and the NEXT envelopes through the proxy are for X again (one or
@@ -461,10 +483,10 @@ def c16_rpc_reattach(rng, count):
 def generate_c16(tier, rng):
     if tier == 'quick':
         s = c16_single(rng, 125) + c16_seq(rng, 145, 3, 2, 10) + c16_pairorder(rng, 30) + c16_dial(rng, 40) + c16_burst(rng, 30) + c16_slow_consumer(rng, 16) + c16_patient_writer(rng)
-        s += c16_reattach(rng, 30) + c16_rpc(rng, 80, 3, 2) + c16_rpc_burst(rng, 12) + c16_rpc_reattach(rng, 8) + c16_attach_race(rng, 60) + c16_redial(rng, 8)
+        s += c16_reattach(rng, 30) + c16_rpc(rng, 80, 3, 2) + c16_rpc_burst(rng, 12) + c16_equal_ids(rng) + c16_rpc_reattach(rng, 8) + c16_attach_race(rng, 60) + c16_redial(rng, 8)
     else:
         s = c16_single(rng, 100000) + c16_seq(rng, 6500, 8, 4, 24) + c16_pairorder(rng, 500) + c16_dial(rng, 800) + c16_burst(rng, 500) + c16_slow_consumer(rng, 300) + c16_patient_writer(rng)
-        s += c16_reattach(rng, 600) + c16_rpc(rng, 1800, 8, 4) + c16_rpc_burst(rng, 100) + c16_rpc_reattach(rng, 100) + c16_attach_race(rng, 600) + c16_redial(rng, 80)
+        s += c16_reattach(rng, 600) + c16_rpc(rng, 1800, 8, 4) + c16_rpc_burst(rng, 100) + c16_equal_ids(rng) + c16_rpc_reattach(rng, 100) + c16_attach_race(rng, 600) + c16_redial(rng, 80)
     return s
 
 
